@@ -289,7 +289,9 @@ func ServeFile(ctx *RequestContext, path string) {
 			return
 		}
 	}
-	ctx.Request.SetRequestURI(path)
+	// path names a file, it is not a request target: '%', '?' and '#' are quoted so that the
+	// handler gets the very same bytes back from ctx.Path() instead of a decoded / truncated name
+	ctx.Request.SetRequestURI(string(bytesconv.AppendQuotedPath(nil, []byte(path))))
 	rootFSHandler(context.Background(), ctx)
 }
 
